@@ -1,7 +1,7 @@
 /-
   C09 — transport failures become events, never exceptions or hangs.
   Property theorems only (helper lemmas: Proofs/Raises.lean, Monitor.lean, MonitorList.lean,
-  Terminate.lean, RunAll.lean).
+  Terminate.lean, RunAll.lean, SelFail.lean).
 
   In the model every Python exception is a value of `Core.Exn`: `socketFail` (`_SocketFail`: recv
   errors, connection lost), `other` (any other `Exception`: selector errors, exceptions from `recv`
@@ -13,6 +13,7 @@
   every application and every environment script, i.e. for a fault at every socket operation.
 -/
 import Lomond.Proofs.RunAll
+import Lomond.Proofs.SelFail
 import Lomond.Proofs.Connect
 
 namespace Lomond.C09
@@ -152,6 +153,104 @@ theorem recv_failure_not_graceful (o : RecvOutcome) (ho : o = .eof ∨ o = .sock
     · exact ⟨_, heof, Or.inl rfl⟩
     · exact ⟨_, rfl, Or.inr (Or.inl rfl)⟩
     · exact ⟨_, rfl, Or.inr (Or.inr rfl)⟩
+
+/-! ### the selector cannot be created
+
+  `cfg.connect = .selFail proxy`: `_connect()` returned a socket, but `self._selector_cls(sock)` — the
+  first statement after the `Connected` event, inside `run()`'s `try` — raises (e.g. `OSError(EMFILE)`
+  from `epoll_create`/`kqueue`).  An ordinary `Exception` inside the `try`: the `except Exception`
+  clause closes the socket and yields `Disconnected('error; …')`; `finally` finds `selector is None`. -/
+
+/-- **Failure of the selector's constructor becomes a `Disconnected` event.**  For every
+    configuration with this connect outcome, every application and every environment script:
+    `run()` returns normally, with the socket closed and no selector, after exactly the events
+    `Connecting, Connected, Disconnected('error', graceful=False)` (or `Connecting, ConnectFail`
+    when already the upgrade request could not be written, so that the selector was never asked
+    for) — unless the application abandons the iterator, and then it has seen a prefix of those
+    events.  No exception escapes, and the environment script is never consulted (the connection is
+    never reported as waiting for more script). -/
+theorem selector_failure_becomes_disconnected (cfg : Cfg) (react : React) (env : List EnvStep) (proxy : Bool)
+    (hc : cfg.connect = .selFail proxy) :
+    (∃ s', run (initSys cfg react env) = .ok () s' ∧ s'.sockOpen = false ∧ s'.selOpen = false ∧
+      (eventsOf cfg react env = [.connecting, .connected proxy, .disconnected "error" false] ∨
+       eventsOf cfg react env = [.connecting, .connectFail "request-failed"])) ∨
+    (∃ s', run (initSys cfg react env) = .err .genExit s' ∧ Abandons react ∧
+      (eventsOf cfg react env <+: [.connecting, .connected proxy, .disconnected "error" false] ∨
+       eventsOf cfg react env <+: [.connecting, .connectFail "request-failed"])) := by
+  have hev : eventsOf cfg react env = events (run (initSys cfg react env)).state.trace := runAll_events cfg react env
+  have hem := emits_run_selFail proxy (initSys cfg react env) hc
+  have hns := run_noSelector (initSys cfg react env) (fun p h => by
+    have h' : cfg.connect = .ok p := h
+    rw [hc] at h'; cases h') ⟨rfl, fun h => by cases h⟩
+  rcases run_selFail_outcome proxy (initSys cfg react env) hc with ⟨s', hr, hs⟩ | ⟨s', hr, ha⟩
+  · rw [hr] at hem hns hev
+    refine Or.inl ⟨s', hr, hs, hns.1, ?_⟩
+    rw [hev]
+    rcases hem with h | h
+    · exact Or.inl h
+    · exact Or.inr h
+  · rw [hr] at hem hev
+    refine Or.inr ⟨s', hr, ha, ?_⟩
+    rw [hev]
+    rcases hem with ⟨p, hp, e⟩ | ⟨p, hp, e⟩
+    · exact Or.inl (by show events s'.trace <+: _; rw [show events s'.trace = p from e]; exact hp)
+    · exact Or.inr (by show events s'.trace <+: _; rw [show events s'.trace = p from e]; exact hp)
+
+/-- **… and it is never reported as graceful, nor as anything but `error`**: whatever the application
+    does, every `Disconnected` event of such a connection is `Disconnected('error', graceful=False)`,
+    and it is preceded by `Connected`. -/
+theorem selector_failure_not_graceful (cfg : Cfg) (react : React) (env : List EnvStep) (proxy : Bool)
+    (hc : cfg.connect = .selFail proxy) (k : String) (g : Bool)
+    (hd : Event.disconnected k g ∈ eventsOf cfg react env) :
+    k = "error" ∧ g = false ∧ Event.connected proxy ∈ eventsOf cfg react env := by
+  have key : ∀ L : List Event, L <+: [.connecting, .connected proxy, .disconnected "error" false] →
+      Event.disconnected k g ∈ L → k = "error" ∧ g = false ∧ Event.connected proxy ∈ L := by
+    intro L hL hm
+    have hm' := hL.subset hm
+    simp only [List.mem_cons, List.not_mem_nil, or_false, Event.disconnected.injEq, reduceCtorEq, false_or] at hm'
+    obtain ⟨rfl, rfl⟩ := hm'
+    refine ⟨rfl, rfl, ?_⟩
+    rcases L with _ | ⟨a, _ | ⟨b, _ | ⟨c, L⟩⟩⟩
+    · cases hm
+    · simp only [List.cons_prefix_cons, List.nil_prefix, and_true] at hL
+      subst hL; simp at hm
+    · simp only [List.cons_prefix_cons, List.nil_prefix, and_true] at hL
+      obtain ⟨rfl, rfl⟩ := hL; simp at hm
+    · simp only [List.cons_prefix_cons] at hL
+      obtain ⟨rfl, rfl, _⟩ := hL; simp
+  have key2 : ∀ L : List Event, L <+: [.connecting, .connectFail "request-failed"] →
+      Event.disconnected k g ∉ L := by
+    intro L hL hm
+    have hm' := hL.subset hm
+    simp at hm'
+  rcases selector_failure_becomes_disconnected cfg react env proxy hc with ⟨_, _, _, _, h | h⟩ | ⟨_, _, _, h | h⟩
+  · exact key _ (h ▸ List.prefix_refl _) hd
+  · exact absurd hd (key2 _ (h ▸ List.prefix_refl _))
+  · exact key _ h hd
+  · exact absurd hd (key2 _ h)
+
+/-- **The socket is closed when the terminal event is delivered, also when the selector could not be
+    created**: `socket_closed_at_terminal` for the connect outcome `.selFail` — `Disconnected('error')`
+    (or `ConnectFail('request-failed')`) is preceded by the `sockClose` observation. -/
+theorem socket_closed_at_terminal_selector_failure (cfg : Cfg) (react : React) (env : List EnvStep) (proxy : Bool)
+    (hc : cfg.connect = .selFail proxy) (post pre : List Obs) (e : Event)
+    (ht : (runAll cfg react env).trace = post ++ .ev e :: pre) (hterm : Event.isTerminal e = true) :
+    Obs.sockClose ∈ pre :=
+  termOK_split (termOK_runAll' cfg react env proxy (Or.inr hc)) post pre e ht hterm
+
+/-- non-vacuity: the whole trace of such a connection — request written, `Connected`, socket closed,
+    `Disconnected('error')`; no `selClose`, and the script (here: an EOF) is never looked at -/
+example : (runAll { connect := .selFail false } (fun _ => []) [.wait 1 (some .eof)]).trace =
+    [.ev (.disconnected "error" false), .sockClose, .ev (.connected false), .wr [], .ev .connecting] := by
+  decide +kernel
+
+/-- … an application that stops iterating at `Connected`: a strict prefix of the events -/
+example : eventsOf { connect := .selFail true } (fun h => if h.length = 2 then [.abandon false] else []) [] =
+    [.connecting, .connected true] := by decide +kernel
+
+/-- … and the upgrade request cannot be written: `ConnectFail`, the selector is never asked for -/
+example : eventsOf { connect := .selFail false, writeFails := fun k => k == 0 } (fun _ => []) [] =
+    [.connecting, .connectFail "request-failed"] := by decide +kernel
 
 /-! ### what the application sees from its own send calls -/
 
